@@ -183,7 +183,6 @@ func (w *When) Matches(argAndRet ...arg.Pair) *When {
 			results = []interface{}{v.Return}
 		}
 
-		w.Return(results...)
 		matcher := newDefaultMatch(args, results, w.isMethod, w.funcTyp)
 		w.matches = append(w.matches, matcher)
 	}
